@@ -30,7 +30,8 @@ func init() {
 	})
 }
 
-var c09Tail = []string{"-z", "--zz", "-a", "--aa", "-o", "v", "x", "-", "--", "--out=v", "-o=v", "-ab", "---", "", "-1", "p", "q", "--zz=v", "-é", "é"}
+var c09Tail = []string{"-z", "--zz", "-a", "--aa", "-o", "v", "x", "-", "--", "--out=v", "-o=v", "-ab", "---", "", "-1", "p", "q", "--zz=v", "-é", "é", "--", "+x", "-%", "%s", "-5", "--=", "-\t",
+	"-a-token-longer-than-sixty-four-bytes-0123456789-0123456789-0123456789-0123456789"}
 
 func runC09(c *core.Ctx) {
 	switch c.Index % 4 {
@@ -167,6 +168,9 @@ func c09SpecLevel(c *core.Ctx) {
 		hs = gen.Mutate(c.R, hs)
 	}
 	nt := c.R.Intn(5)
+	if c.R.Intn(15) == 0 {
+		nt = 9 + c.R.Intn(6) // a long tail
+	}
 	var tail []string
 	for i := 0; i < nt; i++ {
 		tail = append(tail, c09Tail[c.R.Intn(len(c09Tail))])
